@@ -260,7 +260,11 @@ def nextEvent (w : World) : Option World := Id.run do
     let w := { w with cmdQ := rest }
     if isOpen then
       let s := getPeer w p
-      let needsOpen := s.slot = some (.closed none)
+      -- `service.open_substream` is called in `Closed` unless a pending substream is reused
+      let needsOpen := match s.slot with
+        | some (.closed none) => true
+        | some (.closed (some x)) => !s.pending.contains x
+        | _ => false
       let (w, ok, sid) := if needsOpen then openAttempt w p else (w, false, w.nextSid)
       return some (act w p (.cmdOpen w.dial (w.known.contains p) ok sid))
     else
